@@ -14,12 +14,16 @@ import (
 	"runtime/debug"
 	"strings"
 
+	"github.com/pingcap/kvproto/pkg/metapb"
+	"github.com/pingcap/kvproto/pkg/pdpb"
 	"github.com/pingcap/log"
 	"github.com/tikv/pd/pkg/cache"
+	"github.com/tikv/pd/server/core"
 	"github.com/tikv/pd/server/schedule"
 	"github.com/tikv/pd/server/schedule/checker"
 	"github.com/tikv/pd/server/schedule/hbstream"
 	"github.com/tikv/pd/server/schedule/operator"
+	"github.com/tikv/pd/server/schedule/opt"
 	"go.uber.org/zap"
 
 	"pdverif/internal/coqfmt"
@@ -29,10 +33,121 @@ import (
 	"pdverif/internal/sim10"
 )
 
+type nbrSpec struct {
+	ID      uint64
+	Peers   []gen10.PeerSpec
+	Down    []int
+	Pending []int
+	Size    int64
+}
+
 type caseRec struct {
+	Nbrs   []nbrSpec // neighbour regions (merge checker behind CheckRegion)
 	Spec   gen10.ClusterSpec
 	Entry  string // "replica" | "rule" | "controller"
 	Result string // summary of the implementation's answer
+}
+
+// buildMenv installs the neighbour regions and prints what the merge checker and fixRange read (real values)
+func buildMenv(bt *gen10.Built, entry string, nbrs []nbrSpec) string {
+	tc := bt.TC
+	region := bt.Region
+	for _, n := range nbrs {
+		meta := &metapb.Region{Id: n.ID, StartKey: []byte(fmt.Sprintf("%020d", n.ID)), EndKey: []byte(fmt.Sprintf("%020d", n.ID+1)),
+			RegionEpoch: &metapb.RegionEpoch{ConfVer: 5, Version: 5}}
+		for _, p := range n.Peers {
+			meta.Peers = append(meta.Peers, p.Meta())
+		}
+		var down []*pdpb.PeerStats
+		for _, i := range n.Down {
+			down = append(down, &pdpb.PeerStats{Peer: meta.Peers[i], DownSeconds: 4000})
+		}
+		var pend []*metapb.Peer
+		for _, i := range n.Pending {
+			pend = append(pend, meta.Peers[i])
+		}
+		tc.PutRegion(core.NewRegionInfo(meta, meta.Peers[0], core.WithDownPeers(down), core.WithPendingPeers(pend),
+			core.SetApproximateSize(n.Size), core.SetApproximateKeys(1000)))
+	}
+	bl := func(v bool) string {
+		if v {
+			return "true"
+		}
+		return "false"
+	}
+	o := tc.GetOpts()
+	split := false
+	if o.IsPlacementRulesEnabled() {
+		split = len(tc.RuleManager.GetSplitKeys(region.GetStartKey(), region.GetEndKey())) > 0
+	}
+	if entry != "controller" {
+		return fmt.Sprintf("(MEnv false 0 false false false %s None None)", bl(split))
+	}
+	tc.SetSplitMergeInterval(0) // the merge checker is active at once
+	nb := func(n *core.RegionInfo) string {
+		if n == nil {
+			return "None"
+		}
+		return fmt.Sprintf("(Some (Nbr %s %d %d %s %s %s %d))", gen10.CoqPeerList(n.GetPeers()), len(n.GetDownPeers()), len(n.GetPendingPeers()),
+			bl(checker.AllowMerge(tc, region, n)), bl(tc.IsRegionHot(n)), bl(opt.IsRegionReplicated(tc, n)), n.GetApproximateSize())
+	}
+	prev, next := tc.GetAdjacentRegions(region)
+	small := region.GetApproximateSize() <= int64(o.GetMaxMergeRegionSize()) && region.GetApproximateKeys() <= int64(o.GetMaxMergeRegionKeys())
+	return fmt.Sprintf("(MEnv %s %d %s %s %s %s %s %s)", bl(o.GetMergeScheduleLimit() > 0), region.GetApproximateSize(), bl(small), bl(tc.IsRegionHot(region)),
+		bl(o.IsOneWayMergeEnabled()), bl(split), nb(prev), nb(next))
+}
+
+func genNbrs(r *rng.R, spec gen10.ClusterSpec) []nbrSpec {
+	var out []nbrSpec
+	next := uint64(5001)
+	mk := func(id uint64) nbrSpec {
+		n := nbrSpec{ID: id, Size: 10}
+		if r.Pct(10) {
+			n.Size = 600
+		}
+		if r.Pct(55) {
+			for _, p := range spec.Region.Peers {
+				n.Peers = append(n.Peers, gen10.PeerSpec{ID: next, Store: p.Store, Role: p.Role % 2})
+				next++
+			}
+		} else {
+			k := spec.Cfg.MaxReplicas
+			if r.Pct(15) {
+				k--
+			}
+			perm := r.Intn(len(spec.Stores))
+			for j := 0; j < k && j < len(spec.Stores); j++ {
+				n.Peers = append(n.Peers, gen10.PeerSpec{ID: next, Store: spec.Stores[(perm+j)%len(spec.Stores)].ID})
+				next++
+			}
+			if len(n.Peers) > 1 && r.Pct(10) {
+				n.Peers[len(n.Peers)-1].Role = 1
+			}
+		}
+		if len(n.Peers) == 0 {
+			n.Peers = []gen10.PeerSpec{{ID: next, Store: spec.Stores[0].ID}}
+			next++
+		}
+		for j := range n.Peers {
+			if j > 0 && r.Pct(5) {
+				n.Down = append(n.Down, j)
+			} else if j > 0 && r.Pct(5) {
+				n.Pending = append(n.Pending, j)
+			}
+		}
+		return n
+	}
+	if r.Pct(75) {
+		id := spec.Region.ID + 1
+		if r.Pct(10) {
+			id++ // a gap: not adjacent
+		}
+		out = append(out, mk(id))
+	}
+	if r.Pct(40) {
+		out = append(out, mk(spec.Region.ID-1))
+	}
+	return out
 }
 
 func stageOf(desc string, rules bool) string {
@@ -70,6 +185,8 @@ func stageOf(desc string, rules bool) string {
 		return "StJoint"
 	case "promote-learner":
 		return "StLearner"
+	case "merge-region":
+		return "StMerge"
 	}
 	return "StOther"
 }
@@ -82,9 +199,10 @@ type outcome struct {
 	viol    []res.Violation
 }
 
-func runCase(spec gen10.ClusterSpec, entry string) (o outcome) {
+func runCase(spec gen10.ClusterSpec, entry string, nbrs []nbrSpec) (o outcome) {
 	bt := gen10.Build(spec)
 	defer bt.Cancel()
+	menv := buildMenv(bt, entry, nbrs)
 	var op *operator.Operator
 	rules := bt.TC.GetOpts().IsPlacementRulesEnabled()
 	coqEntry := "EReplica"
@@ -95,7 +213,7 @@ func runCase(spec gen10.ClusterSpec, entry string) (o outcome) {
 		coqEntry = "EController"
 	}
 	// print the input BEFORE running the checker (the checkers do not mutate the cluster, but the fit must be the one they see)
-	input := bt.CoqInput(coqEntry)
+	input := bt.CoqInput(coqEntry, menv)
 	defer func() {
 		// a checker that crashes on the input: reported as a violation with the panic site, no Coq case
 		if e := recover(); e != nil {
@@ -119,7 +237,7 @@ func runCase(spec gen10.ClusterSpec, entry string) (o outcome) {
 			}
 			o = outcome{summary: fmt.Sprintf("PANIC %v", e), tags: []string{"result:panic"},
 				viol: []res.Violation{{Sig: "C10:checker-panics:" + site, Desc: fmt.Sprintf("the checker panics (%v) on entry %s", e, entry),
-					Replay: map[string]interface{}{"Spec": spec, "Entry": entry}}}}
+					Replay: map[string]interface{}{"Spec": spec, "Entry": entry, "Nbrs": nbrs}}}}
 		}
 	}()
 	switch entry {
@@ -130,8 +248,10 @@ func runCase(spec gen10.ClusterSpec, entry string) (o outcome) {
 		cc := schedule.NewCheckerController(ctx, bt.TC, bt.TC.RuleManager, oc)
 		ops := cc.CheckRegion(bt.Region)
 		cancel()
-		if len(ops) > 0 {
-			op = ops[0]
+		for _, x := range ops {
+			if x.RegionID() == bt.Region.GetID() && op == nil {
+				op = x
+			}
 		}
 	default:
 		if rules {
@@ -166,7 +286,7 @@ func runCase(spec gen10.ClusterSpec, entry string) (o outcome) {
 	}
 	for _, a := range tr.Anomalies {
 		o.viol = append(o.viol, res.Violation{Sig: "C10:step-disagrees-with-own-CheckSafety-or-IsFinish", Desc: a + " in " + o.summary,
-			Replay: map[string]interface{}{"spec": spec, "entry": entry}})
+			Replay: map[string]interface{}{"Spec": spec, "Entry": entry, "Nbrs": nbrs}})
 	}
 	// target store features for the histogram
 	before := map[uint64]bool{}
@@ -209,8 +329,8 @@ func main() {
 		Footer: "Definition M := Eval vm_compute in map fst (mismatches cases).\nDefinition D := Eval vm_compute in hd_error (mismatches cases).\nDefinition V := Eval vm_compute in monitor_fails cases.\nPrint M. Print D. Print V.\n"}
 
 	var all []caseRec
-	emit := func(spec gen10.ClusterSpec, entry string) outcome {
-		o := runCase(spec, entry)
+	emit := func(spec gen10.ClusterSpec, entry string, nbrs []nbrSpec) outcome {
+		o := runCase(spec, entry, nbrs)
 		for _, t := range spec.Tags {
 			R.Count(t)
 		}
@@ -232,7 +352,7 @@ func main() {
 		if err := cf.Add(o.coq); err != nil {
 			panic(err)
 		}
-		all = append(all, caseRec{spec, entry, o.summary})
+		all = append(all, caseRec{nbrs, spec, entry, o.summary})
 		return o
 	}
 	for _, f := range []string{*corpus, *replay} {
@@ -253,7 +373,7 @@ func main() {
 			l = []caseRec{w.Replay}
 		}
 		for _, c := range l {
-			o := emit(c.Spec, c.Entry)
+			o := emit(c.Spec, c.Entry, c.Nbrs)
 			if f == *replay {
 				fmt.Printf("entry=%s result: %s\n%s\n", c.Entry, o.summary, o.coq)
 			}
@@ -270,9 +390,13 @@ func main() {
 				entry = "rule"
 			}
 			if r.Pct(25) {
-				entry = "controller" // CheckerController.CheckRegion: joint-state / learner checker in front
+				entry = "controller" // CheckerController.CheckRegion: joint-state / learner checker in front, merge checker behind
 			}
-			emit(spec, entry)
+			var nbrs []nbrSpec
+			if entry == "controller" {
+				nbrs = genNbrs(r, spec)
+			}
+			emit(spec, entry, nbrs)
 		}
 	}
 	if err := cf.Flush(); err != nil {
